@@ -36,6 +36,11 @@ func init() {
 		"vYield":    hYield,
 		"vThorough": func(m *machine, fr *frame, args []value) value { return m.w.thorough },
 		"vWriter":   hWriter,
+		"vClearWritten": func(m *machine, fr *frame, args []value) value {
+			delete(m.writers, "w:"+concreteStr(args[0], "vClearWritten name"))
+			return nil
+		},
+		"vRepeat":   func(m *machine, fr *frame, args []value) value { return int64(1) },
 		"vMatches": func(m *machine, fr *frame, args []value) value {
 			pat := concreteStr(args[1], "vMatches pattern")
 			d := dualFor(pat)
